@@ -326,6 +326,17 @@ def check_c19_dead_worker(n_workers: int, dead: int, code: int) -> bool:
     return False
 
 
+def check_twin_records_counted(r0: int, r1: int, r2: int) -> bool:
+    """
+    pre: 0 <= r0 <= 10**6 and 0 <= r1 <= 10**6 and 0 <= r2 <= 10**6
+    post: _ == True
+    """
+    RET[0], RET[1], RET[2] = r0, r1, r2
+    RAISE[0] = RAISE[1] = RAISE[2] = 0
+    _reset([0, 0, 0])
+    res = _run_parallel(3, 1, [0, 0, 0], True, False, False)
+    return ival(res.n_records()) == 0      # false claim: must be refuted
+
 # ---------------------------------------------------------------------------------------------- real-library replays
 def real_fill_queue(n_items, n_workers):
     return True, "decided under the shim only (needs an inspectable queue)"
